@@ -80,3 +80,9 @@ package bundler
 // that branch without being such: records the parser marked unused (type-only TypeScript imports: they are not in the
 // output and were never resolved), and the parser's own synthetic import of the runtime (its SourceIndex is preset).
 //@ guarded external-import-entries-are-real-imports C19: func=(*scanner).processScannedFiles ; in=bundler ; site=call MaybeRemoveWhitespace ; when-arg=1:*external*true* ; scenario=metafile_phantom_external_imports ; require=false:call Has(*.Flags,*) && false:*.SourceIndex==call MakeIndex32(*)
+
+// C08 (diagnostics are part of the result): recursivelyValidateTLA records, per file, the import that leads to the
+// nearest top-level await; reportInvalidTLA follows these records to build the error text and its notes. Files are
+// visited in source-index order, which depends on load order, so among imports at the SAME depth the choice must not be
+// "whichever was seen first": the decision to (re)record a parent reads the import record index as a tie-break.
+//@ decides tla-parent-choice-has-a-tie-break C08: func=(*scanner).recursivelyValidateTLA ; in=bundler ; site=store tlaCheck.parent ; when=*.SourceIndex ; scenario=tla_chain_order ; must=tlaCheck.importRecordIndex
